@@ -27,11 +27,32 @@ def repo_path():
 
 
 def set_sim(sim):
-    global SIM
+    global SIM, CONTEXT_BACKEND
     SIM = sim
+    CONTEXT_BACKEND = None
 
 
 # --------------------------------------------------------------------------- joblib
+CONTEXT_BACKEND = None      # the joblib backend context the *caller* of the library is inside (None, 'loky', 'threading')
+
+
+class backend_context:
+    """`with joblib.parallel_backend(name):` around a call into the library, as user code that uses joblib itself would do"""
+
+    def __init__(self, name):
+        self.name = name
+
+    def __enter__(self):
+        global CONTEXT_BACKEND
+        self.prev, CONTEXT_BACKEND = CONTEXT_BACKEND, self.name
+        return self
+
+    def __exit__(self, *a):
+        global CONTEXT_BACKEND
+        CONTEXT_BACKEND = self.prev
+        return False
+
+
 class SimParallel:
     """stand-in for joblib.Parallel: FIFO dispatch to min(n_jobs, len) baton-passed threads;
     honours the memory semantics of the arguments (without sharedmem/threading every task
@@ -46,8 +67,16 @@ class SimParallel:
         calls = list(calls)
         sim = SIM
         kw = self.kw
-        shared = (kw.get('require') == 'sharedmem' or kw.get('backend') == 'threading'
-                  or kw.get('prefer') == 'threads')
+        # joblib's rules: require='sharedmem' is a hard constraint (always threads); an explicit backend decides; otherwise an
+        # enclosing parallel_backend(...) context of the caller decides and overrides the soft hint prefer='threads'
+        if kw.get('require') == 'sharedmem' or kw.get('backend') == 'threading':
+            shared = True
+        elif kw.get('backend') is not None:
+            shared = False
+        elif CONTEXT_BACKEND is not None:
+            shared = CONTEXT_BACKEND == 'threading'
+        else:
+            shared = kw.get('prefer') == 'threads'
         sim.stat('parallel_batches')
         if not shared:
             sim.stat('parallel_not_shared')
@@ -294,6 +323,12 @@ class CurProxy:
                     sim.stat('busy_timeout')
                     sim.now += busy
                     raise
+                fl = sim.foreign_lock
+                if fl is not None and fl[1] <= sim.now:
+                    # the other process (fault kind foreign_lock) is done: its lock goes away, everybody waiting may retry
+                    release_foreign_lock(sim)
+                    sim.wake_lock_waiters()
+                    continue
                 if start is None:
                     start = sim.now
                 if sim.now - start >= busy:
@@ -301,7 +336,7 @@ class CurProxy:
                     sim.ev('busy_timeout')
                     raise
                 sim.ev('lock_wait')
-                sim.block_on_lock(start + busy)
+                sim.block_on_lock(start + busy if fl is None else min(start + busy, fl[1]))
 
     def executemany(self, sql, seq):
         for a in seq:
@@ -347,7 +382,7 @@ def sim_connect(db, *a, **k):
 def take_foreign_lock(sim, path, hold):
     """fault kind foreign_lock: another process holds the database exclusively for `hold` virtual seconds"""
     release_foreign_lock(sim)
-    c = _sq.connect(path, timeout=0, isolation_level=None)
+    c = _sq.connect(path, timeout=0, isolation_level=None, check_same_thread=False)   # released by whichever simulated worker sees it expire
     c.execute('BEGIN EXCLUSIVE')
     sim.foreign_lock = (c, sim.now + hold)
     sim.stat('foreign_lock')
@@ -480,11 +515,86 @@ def _need(mod, name):
         raise HarnessError('seam missing: %s.%s' % (mod.__name__, name))
 
 
+class SimLock:
+    """what `threading.Lock()` / `threading.RLock()` give to code of the library under test (the pinned tree creates none; a
+    "thread-safety fix" would): simulated workers are real threads that run one at a time, so a real lock held across a yield
+    point would block the thread that holds the baton and hang the simulation.  This lock parks the *task* instead, the
+    scheduler goes on, and a lock that can never be released (a worker waiting for itself) ends as the kernel's Deadlock."""
+
+    def __init__(self, reentrant):
+        self.reentrant = reentrant
+        self.owner = None
+        self.count = 0
+
+    @staticmethod
+    def _me():
+        sim = SIM
+        return sim.cur if (sim is not None and sim.tasks) else 'main'
+
+    def acquire(self, blocking=True, timeout=-1):
+        sim = SIM
+        me = self._me()
+        in_workers = sim is not None and bool(sim.tasks)
+        if in_workers:
+            sim.yield_point('lock')
+        deadline = None if (timeout is None or timeout < 0 or not in_workers) else sim.now + timeout
+        while True:
+            if self.owner is None or (self.reentrant and self.owner == me):
+                self.owner = me
+                self.count += 1
+                return True
+            if not blocking:
+                return False
+            if not in_workers:
+                raise kernel.Deadlock()         # the only thread there is waits for itself
+            sim.stat('lock_wait')
+            if sim.block_on_lock(deadline) == 'timeout' and deadline is not None and sim.now >= deadline:
+                return False
+
+    def release(self):
+        if self.owner is None:
+            raise RuntimeError('release unlocked lock')
+        self.count -= 1
+        if self.count == 0:
+            self.owner = None
+            sim = SIM
+            if sim is not None and sim.tasks:
+                sim.wake_lock_waiters()
+
+    def locked(self):
+        return self.owner is not None
+
+    def __enter__(self):
+        return self.acquire()
+
+    def __exit__(self, *a):
+        self.release()
+        return False
+
+
+def _patch_threading_locks():
+    import threading
+    real_lock, real_rlock = threading.Lock, threading.RLock
+
+    def from_library():
+        f = sys._getframe(2)
+        return (f.f_globals.get('__name__') or '').split('.')[0] == 'artap'
+
+    def Lock():
+        return SimLock(False) if from_library() else real_lock()
+
+    def RLock():
+        return SimLock(True) if from_library() else real_rlock()
+
+    threading.Lock, threading.RLock = Lock, RLock
+
+
 def install():
     """import artap from the repository under test and put every seam in place"""
     global _INSTALLED, RNG
     if _INSTALLED:
         return
+    _patch_threading_locks()
     import logging
     logging.disable(logging.CRITICAL)
     scratch = scratch_dir()
